@@ -338,7 +338,7 @@ def case_stock_driven(prog, cfg):
     for solver in (("manual", "lapack") if cfg.get("both_generic") else ("manual",)):
         def sdg(solver=solver):
             lm3, _, _ = make_lifetime(sw, dist, cfg["over"], inflow_at=cfg["inflow_at"], n_pts=cfg["n_pts"])
-            s3 = build_stock(sw, "StockDrivenDSM", lm3, stock=sw.driver("st"), solver=solver)
+            s3 = build_stock(sw, "StockDrivenDSM", lm3, stock=sw.driver("st", dtype=cfg.get("driver_dtype", "float")), solver=solver)
             sw.it.call_method(s3, "compute")
             return s3, lm3
         kind, r3 = run_guarded(sdg)
@@ -550,6 +550,11 @@ def dsm_configs(tier):
                 for n_pts, ia in ([(1, "middle")] if tier == "quick" or n_t > 3 else [(1, "middle"), (1, "start"), (2, "middle")]):
                     out.append(dict(n_t=n_t, labels=labels, dist=dist, over=over, n_pts=n_pts, inflow_at=ia))
     return out
+
+
+def int_driver_configs(tier):
+    """a prescribed stock given as an integer-dtype array (whole numbers): results must not be truncated"""
+    return [dict(n_t=3, labels=("a",), dist="NormalLifetime", over="all", n_pts=1, inflow_at="middle", both_generic=True, driver_dtype="int")]
 
 
 def simple_configs(tier):
